@@ -350,11 +350,11 @@ def explore(tier, seed):
 
     # (a) schedules
     if tier == "quick":
-        plans = [("semgrep-detected", "line", 1), ("import-scheduling", "line", 1), ("detector-less", "coarse", 1), ("sonar", "coarse", 1),
+        plans = [("semgrep-detected", "line", 1), ("import-scheduling", "line", 1), ("detector-less", "coarse", 1), ("sonar", "line", 1),
                  ("regex-plugin", "line", 1), ("xml-plugin", "line", 1)]
     else:
         # sizes measured on this box (executions): line<=1 ~1.5-4.3k per driver, coarse<=2 ~5-6k per 3-task driver
-        plans = [("semgrep-detected", "line", 1), ("import-scheduling", "line", 1), ("detector-less", "coarse", 1), ("sonar", "coarse", 1),
+        plans = [("semgrep-detected", "line", 1), ("import-scheduling", "line", 1), ("detector-less", "coarse", 1), ("sonar", "line", 1),
                  ("semgrep-detected", "coarse", 2), ("import-scheduling", "coarse", 2), ("sonar", "coarse", 2), ("detector-less", "coarse", 2),
                  ("four-tasks", "coarse", 1), ("regex-plugin", "line", 1), ("xml-plugin", "line", 1), ("regex-plugin", "coarse", 2), ("xml-plugin", "coarse", 2)]
     sched_cov = []
@@ -459,6 +459,22 @@ def explore(tier, seed):
                 f"{pid}: {len(outs)} different outcomes (files / changesets) over PYTHONHASHSEED {hash_seeds}: seeds grouped {sorted(outs.values())}",
             )
 
+    # (h) per-codemod races: the codemods whose transformers keep state of their own (thorough: every find-and-fix codemod),
+    # two / three files in flight, a scheduling point at every function entry of the transformer's modules, <= 1 preemption
+    hcms = c11a.stateful_codemods()
+    hjobs = [(cm, 1) for cm in hcms]
+    if tier == "thorough":
+        drive.init_inproc()
+        from codemodder import registry as _reg
+
+        every = [c.id for c in _reg.load_registered_codemods().codemods if c.id.startswith("pixee:") and c11a.codemod_spec(c.id) is not None]
+        hjobs = [(cm, 2) for cm in hcms] + [(cm, 1) for cm in every if cm not in hcms]
+    hres = drive.pmap("cmverif.checks.c11a:codemod_race_job", hjobs)
+    race_cov = {"codemods": len(hjobs), "executions": sum(r[1] for r in hres), "stateful_codemods": hcms}
+    for (cm, ns), (_, n, nout, alt, pts) in zip(hjobs, hres):
+        if nout > 1:
+            cands[f"race|{cm}|outcome-depends-on-interleaving"] = ({"kind": "codemod-race", "codemod": cm, "n_seeds": ns, "choices": alt},
+                                                                  f"{nout} distinct outcomes over {n} schedules (<= 1 preemption, {pts} points) of {cm} on {ns} of its seeds and a file of generic constructs")
     # (g) many siblings
     gcfgs = crowd_cfgs(tier)
     gres = drive.pmap("cmverif.checks.c11:crowd_eval", gcfgs)
@@ -482,7 +498,7 @@ def explore(tier, seed):
     for sig, (rp, detail) in sorted(cands.items()):
         if sig in known_open:
             violations.append(Violation(PROP, sig, detail[:600], dict(rp, sig=sig), 1))
-    n_trans = total_exec + len(wcfgs) + len(hcfgs) + len(cli_cfgs) + len(rcfgs) + sib_runs + len(fcfgs) + len(gcfgs)
+    n_trans = total_exec + len(wcfgs) + len(hcfgs) + len(cli_cfgs) + len(rcfgs) + sib_runs + len(fcfgs) + len(gcfgs) + race_cov["executions"]
     coverage = {
         "states": total_exec + len(hcfgs) + len(rcfgs) + len(wcfgs),
         "transitions": n_trans,
@@ -498,6 +514,7 @@ def explore(tier, seed):
         "hash_seeds_over_corpus": {"PYTHONHASHSEED": hash_seeds, "programs": corpus_programs, "project_runs": len(fcfgs), "rule": "every canonical trigger seed of every codemod, one real console-script run per (project, hash seed); per-file outcome (bytes, changesets, failed, unfixed) must be the same for every seed"},
         "rglob_orders": rglob_cov,
         "sibling_independence": {"codemods": len(scfgs), "runs": sib_runs, "file_outcomes_changed_by_codemod": sib_changed, "subsets": "full set + singletons of 3 files" if tier == "quick" else "all non-empty subsets of 4 files"},
+        "per_codemod_races": race_cov,
         "many_siblings": {"targets": CROWD_TARGETS, "sibling_counts": CROWD_SIZES, "per_pipeline": crowd_cov, "rule": "the outcome (bytes, changesets) of every target file is the same with 0, 30 and 700 unrelated files in 200-character directories"},
         "replay_divergence": divergence,
         "rule": "schedule exploration: stateless DFS, executions run to completion, every schedule with <= b preemptions; one outcome (tree + results) required. Other dimensions: every order of the seam's answer; one outcome required.",
@@ -537,6 +554,14 @@ def replay(rp):
     if k == "hashseed-cli":
         outs = {hash_eval_cli((rp["selection"], hs))[0] for hs in range(4)}
         return (len(outs) == 1), f"{len(outs)} distinct outcomes over PYTHONHASHSEED 0..3"
+    if k == "codemod-race":
+        drv = f"codemod:{rp['n_seeds']}:{rp['codemod']}"
+        _, h1, _ = c11a.run_once(drv, rp["choices"], "calls")
+        _, h2, _ = c11a.run_once(drv, rp["choices"], "calls")
+        _, h0, _ = c11a.run_once(drv, [], "calls")
+        if h1 != h2:
+            raise core.HarnessError("schedule replay diverged")
+        return (h1 == h0), f"schedule {rp['choices'][:40]} -> outcome {h1}; default schedule -> {h0}"
     if k == "crowd":
         a, _ = crowd_eval((rp["pipeline"], 0))
         b, _ = crowd_eval((rp["pipeline"], rp["n"]))
